@@ -91,9 +91,14 @@ func TestVerifBoundedC32HostToPath(t *testing.T) {
 			}
 		}
 	}
-	// subdomain hosts
+	// subdomain hosts; also DNSLink names that are one label with a hyphen (no dot): the label
+	// "my-site" reads like an inlined "my.site", which has no record - the host names "my-site"
+	singles := []string{"my-site", "a-b-c"}
+	for _, d := range singles {
+		backend.namesys["/ipns/"+d] = newMockNamesysItem(path.FromCid(testCID), 0)
+	}
 	v1 := "bafybeif7a7gdklt6hodwdrmwmxnhksctcuav6lfxlcyfz4khzl3qfmvcgu"
-	for _, name := range dnslinks {
+	for _, name := range append(append([]string{}, dnslinks...), singles...) {
 		inl, err := InlineDNSLink(name)
 		if err != nil {
 			t.Fatal(err)
@@ -123,7 +128,7 @@ func TestVerifBoundedC32HostToPath(t *testing.T) {
 			}
 		}
 	}
-	fmt.Printf("BOUNDED-STATS {\"cases\":%d,\"failures\":%d,\"bound\":\"3 DNSLink names x ports x 4 upstream hosts x 4 remainders x 2 queries; subdomain hosts for a CID and for each name inlined and plain, direct and proxied\"}\n", cases, fails)
+	fmt.Printf("BOUNDED-STATS {\"cases\":%d,\"failures\":%d,\"bound\":\"3 DNSLink names (+2 single-label hyphenated names as subdomain hosts) x ports x 4 upstream hosts x 4 remainders x 2 queries; subdomain hosts for a CID and for each name inlined and plain, direct and proxied\"}\n", cases, fails)
 	if fails > 0 {
 		t.Fail()
 	}
